@@ -105,7 +105,7 @@ class _Child:
                 os.kill(self.pid, signal.SIGUSR1)
                 time.sleep(0.15)
                 with open(self.stackfile) as f:
-                    stack = f.read()[-2500:]
+                    stack = f.read()[:2500]
             except OSError:
                 pass
         try:
@@ -169,7 +169,7 @@ def run_cases(fn, cases, *, timeout=20.0, nproc=16, mem=3 << 30, slice_size=None
                         cur = ch.current if ch.current is not None else rest[0]
                         try:
                             with open(ch.stackfile) as f:
-                                st = f.read()[-2500:]
+                                st = f.read()[:2500]
                         except OSError:
                             st = ""
                         out[cur] = Outcome("crash", None, "child exited abnormally\n" + st, now - ch.started)
